@@ -111,81 +111,122 @@ def check_empty(project: Project, rep):
                     construct=f"{tr.qualname}: empty input")
 
 
-def _bind(callee_params, call):
-    b = {}
-    for k, a in enumerate(call.args):
-        if k < len(callee_params):
-            b[callee_params[k]] = ast.unparse(a)
-    for k in call.keywords:
-        if k.arg is not None:
-            b[k.arg] = ast.unparse(k.value)
-    return b
+def _same(a, b) -> bool:
+    if a is b:
+        return True
+    if type(a) is not type(b):
+        return False
+    if isinstance(a, Sc):
+        return a.e == b.e
+    return repr(a) == repr(b)
 
 
 def check_par_wrap(project: Project, rep):
+    """AD-WRAP / AD-PAR, decided by executing `transform` symbolically on one imager while observing (not executing) the
+    calls of the per-diagram routine `_transform`: which diagram and which parameters reach it, in which order, and what
+    `transform` hands back — for a lone diagram, a one-element collection and a two-element collection, serially and with
+    n_jobs=2 (joblib's Parallel/delayed are modelled as an order-preserving map; trusted)."""
+    from ..core.values import NoneV
     cls = project.cls(CLS)
     tr = cls.methods["transform"]
     callee = project.function(TR)
-    locs = local_names(tr.node)
-    sites = []
-    for n in ast.walk(tr.node):
-        if isinstance(n, ast.Call):
-            t = project.resolve(tr.module, n.func, locs)
-            if t == TR:
-                sites.append(("serial", n))
-            elif isinstance(n.func, ast.Call) and project.resolve(tr.module, n.func.func, locs) == "joblib.delayed" \
-                    and n.func.args and project.resolve(tr.module, n.func.args[0], locs) == TR:
-                sites.append(("parallel", n))
-    kinds = {k for k, _ in sites}
-    if kinds != {"serial", "parallel"}:
-        rep.unmodelled("AD-PAR", tr, tr.node, f"expected one serial and one parallel call of {TR}; found {sorted(kinds)}")
+    I, obj = _imager(project)
+    I.cfg.nonempty |= {("rows", "X"), ("rows", "Y")}
+    I.cfg.finite_inputs |= {"X", "Y"}
+    calls = []
+
+    def stub(I_, bound, n):
+        calls.append(dict(bound))
+        return Sc(sym.Opq("image", (), f"image#{len(calls)}"))
+    I.cfg.flags["stub_func"] = {TR: stub}
+    X, Y = dgm_input("X"), dgm_input("Y")
+
+    def run(arg, n_jobs):
+        del calls[:]
+        try:
+            r = I.call_function(tr, [obj, arg], {"n_jobs": n_jobs, "skew": Sc(sym.Sym("skew"))}, None)
+        except Exception as ex:
+            return None, [], f"{type(ex).__name__}: {ex}"
+        return r, [dict(c) for c in calls], None
+
+    def which(c):
+        d = c.get(callee.params[0])
+        return sorted({x[1] for x in sym.walk(d.elem) if x[0] == "in"}) if isinstance(d, Arr) else None
+
+    def uid(v):
+        return v.e[3] if isinstance(v, Sc) and v.e[0] == "opq" and v.e[1] == "image" else None
+    serial, par = NoneV(), Sc(sym.Num(2))
+    r1, c1, e1 = run(X, serial)
+    r2, c2, e2 = run(Seq([X], "list"), serial)
+    r3, c3, e3 = run(Seq([X, Y], "list"), serial)
+    r4, c4, e4 = run(Seq([X, Y], "list"), par)
+    r5, c5, e5 = run(X, par)
+    err = e1 or e2 or e3 or e4 or e5
+    if err:
+        rep.unmodelled("AD-WRAP", tr, tr.node, f"symbolic execution of transform failed: {err}"[:200])
+        rep.unmodelled("AD-PAR", tr, tr.node, "symbolic execution of transform failed")
+        return
+    # ---- AD-WRAP
+    if len(c1) == 1 and which(c1[0]) == ["X"] and uid(r1) is not None:
+        rep.discharged("AD-WRAP", tr, tr.node, "a lone diagram is imaged by one call of the per-diagram routine on that diagram, "
+                                               "and its image is returned unwrapped")
+    elif len(c1) == 1 and which(c1[0]) == ["X"] and isinstance(r1, Seq):
+        rep.refuted("AD-WRAP", tr, tr.node, "the single-diagram result is not unwrapped: a lone diagram yields a one-element "
+                                            "list instead of its image", construct=f"{tr.qualname}: unwrap")
+    elif c1 and which(c1[0]) != ["X"]:
+        rep.refuted("AD-WRAP", tr, tr.node, f"a lone diagram is not passed whole to the per-diagram routine (it receives "
+                                            f"{c1[0].get(callee.params[0])!r})"[:200], construct=f"{tr.qualname}: wrap")
     else:
-        binds = {k: _bind(callee.params, n) for k, n in sites}
-        diff = [(p_, binds["serial"].get(p_), binds["parallel"].get(p_)) for p_ in callee.params
-                if binds["serial"].get(p_) != binds["parallel"].get(p_)]
-        node = dict(sites)["parallel"]
-        if not diff:
-            rep.discharged("AD-PAR", tr, node, f"serial and parallel call sites bind identical expressions to all "
-                                               f"{len(callee.params)} parameters of the same callee")
-        else:
-            p_, a, b = diff[0]
-            rep.refuted("AD-PAR", tr, node, f"the parallel call passes {p_}={b} where the serial call passes {p_}={a}: n_jobs changes "
-                                            f"the image")
-        # both iterate the same collection in order
-        iters = []
-        for n in ast.walk(tr.node):
-            if isinstance(n, (ast.ListComp, ast.GeneratorExp)) and any(c is s for _, s in sites for c in ast.walk(n)):
-                g = n.generators[0]
-                iters.append((ast.unparse(g.target), ast.unparse(g.iter), bool(g.ifs)))
-        if len(iters) == 2 and iters[0] == iters[1] and not iters[0][2]:
-            rep.discharged("AD-PAR", tr, tr.node, f"both arms map `{iters[0][1]}` element by element, in order")
-        elif len(iters) == 2:
-            rep.refuted("AD-PAR", tr, tr.node, f"the serial and parallel arms iterate differently: {iters}")
-    # wrap / unwrap
-    ens = cls.methods.get("_ensure_iterable")
-    if ens is None:
-        raise AnalysisError("AD-WRAP: _ensure_iterable not found")
-    wrap = [n for n in ast.walk(ens.node) if isinstance(n, ast.If) and any(
-        isinstance(s, ast.Assign) and isinstance(s.value, ast.List) and len(s.value.elts) == 1 for s in n.body)]
-    if wrap and isinstance(wrap[0].test, ast.Name):
-        flag = wrap[0].test.id
-        ret = [n for n in ast.walk(ens.node) if isinstance(n, ast.Return)]
-        if ret and isinstance(ret[0].value, ast.Tuple) and any(isinstance(e, ast.Name) and e.id == flag for e in ret[0].value.elts):
-            rep.discharged("AD-WRAP", ens, wrap[0], f"a single diagram is wrapped iff `{flag}`, and the flag is returned")
-        else:
-            rep.refuted("AD-WRAP", ens, ens.node, "the wrap flag is not returned to the caller")
-    else:
-        rep.refuted("AD-WRAP", ens, ens.node, "a single diagram is not wrapped under a flag")
-    unwrap = [n for n in ast.walk(tr.node) if isinstance(n, ast.If) and isinstance(n.test, ast.Name) and any(
-        isinstance(s, ast.Assign) and isinstance(s.value, ast.Subscript) and ast.unparse(s.value.slice) == "0" for s in n.body)]
-    flag_src = [n for n in ast.walk(tr.node) if isinstance(n, ast.Assign) and isinstance(n.targets[0], ast.Tuple)
-                and isinstance(n.value, ast.Call) and ast.unparse(n.value.func) == "self._ensure_iterable"]
-    if unwrap and flag_src and unwrap[0].test.id == flag_src[0].targets[0].elts[1].id:
-        rep.discharged("AD-WRAP", tr, unwrap[0], "the result is unwrapped iff the same flag")
-    else:
-        rep.refuted("AD-WRAP", tr, tr.node, "the single-diagram result is not unwrapped under the flag returned by the wrapping "
-                                            "step: a lone diagram and a one-element collection give differently shaped results",
+        rep.unmodelled("AD-WRAP", tr, tr.node, f"lone diagram: {len(c1)} per-diagram calls, result {r1!r}"[:200])
+    if len(c2) == 1 and which(c2[0]) == ["X"] and isinstance(r2, Seq) and len(r2.items) == 1 and uid(r2.items[0]) is not None:
+        same_args = all(_same(c1[0].get(p_), c2[0].get(p_)) for p_ in callee.params[1:]) if len(c1) == 1 else None
+        if same_args:
+            rep.discharged("AD-WRAP", tr, tr.node, "a one-element collection yields a one-element list holding the image "
+                                                   "computed with the same parameters as for the lone diagram")
+        elif same_args is False:
+            rep.refuted("AD-WRAP", tr, tr.node, "a diagram passed alone and inside a collection is imaged with different "
+                                                "parameters", construct=f"{tr.qualname}: call-style parameters")
+    elif len(c2) == 1 and uid(r2) is not None:
+        rep.refuted("AD-WRAP", tr, tr.node, "a one-element collection is unwrapped like a lone diagram: a lone diagram and a "
+                                            "one-element collection give differently shaped results than documented",
                     construct=f"{tr.qualname}: unwrap")
+    else:
+        rep.unmodelled("AD-WRAP", tr, tr.node, f"one-element collection: {len(c2)} calls, result {r2!r}"[:200])
+    # ---- AD-PAR
+    if len(c3) == 2 and len(c4) == 2 and [which(c) for c in c3] == [["X"], ["Y"]]:
+        diff = None
+        for k in range(2):
+            for p_ in callee.params:
+                if not _same(c3[k].get(p_), c4[k].get(p_)):
+                    diff = (k, p_, c3[k].get(p_), c4[k].get(p_))
+                    break
+            if diff:
+                break
+        if diff is None:
+            rep.discharged("AD-PAR", tr, tr.node, f"serial and parallel execution call the same routine on the same diagrams with "
+                                                  f"identical values for all {len(callee.params)} parameters")
+        else:
+            k, p_, a_, b_ = diff
+            rep.refuted("AD-PAR", tr, tr.node, f"with n_jobs set, diagram {k} is imaged with {p_}={b_!r} where the serial path "
+                                               f"passes {p_}={a_!r}: n_jobs changes the image"[:300])
+        ids3 = [uid(x) for x in r3.items] if isinstance(r3, Seq) else None
+        ids4 = [uid(x) for x in r4.items] if isinstance(r4, Seq) else None
+        if ids3 and ids4 and None not in ids3 + ids4 and ids3 == sorted(ids3) and ids4 == sorted(ids4) and len(ids3) == len(ids4) == 2:
+            rep.discharged("AD-PAR", tr, tr.node, "both paths return the images in the order of the input collection")
+        elif ids3 and ids4 and None not in ids3 + ids4:
+            rep.refuted("AD-PAR", tr, tr.node, f"the images are not returned in input order (serial {ids3}, parallel {ids4})")
+        else:
+            rep.unmodelled("AD-PAR", tr, tr.node, f"collection results not modelled: {r3!r} / {r4!r}"[:200])
+    elif len(c3) == 2 and [which(c) for c in c3] != [["X"], ["Y"]]:
+        rep.refuted("AD-PAR", tr, tr.node, f"the serial path images diagrams {[which(c) for c in c3]} for the collection [X, Y]")
+    else:
+        rep.unmodelled("AD-PAR", tr, tr.node, f"expected two per-diagram calls on each path; serial {len(c3)}, parallel {len(c4)}")
+    if len(c5) == 1 and len(c1) == 1:
+        if all(_same(c1[0].get(p_), c5[0].get(p_)) for p_ in callee.params) and uid(r5) is not None:
+            rep.discharged("AD-PAR", tr, tr.node, "a lone diagram with n_jobs set goes through the same call and is unwrapped "
+                                                  "the same way", nontrivial=False)
+        else:
+            rep.refuted("AD-PAR", tr, tr.node, "a lone diagram is treated differently when n_jobs is set")
 
 
 def check_skew_sites(project: Project, rep):
